@@ -10,7 +10,7 @@
 From Coq Require Import List Arith Bool.
 Import ListNotations.
 From SV Require Import Model.Object Spec.ObjectSpec Proofs.ObjectProofs Proofs.ObjectThms
-  Proofs.ObjectBisim Proofs.ObjectBisimThm Instances.ObjectExamples.
+  Proofs.ObjectBisim Proofs.ObjectBisimThm Proofs.ObjectBisimFull Proofs.ObjectWf Instances.ObjectExamples.
 
 (** Every attribute in the declared read set of a public call is written by to_dict -- for every
     call except collect_energy_receiver_mono(direct_sound=True). *)
@@ -81,3 +81,73 @@ Theorem C15_bisim_trace_partial (g : geo) (h : list op) (s s' : ostate) :
   sim (orun g s h) (orun g s' h).
 Proof. exact (bisim_trace g h s s'). Qed.
 Print Assumptions C15_bisim_trace_partial.
+
+(** FULL bisimulation: for EVERY public call except collect_energy_receiver_mono(direct_sound=True)
+    -- i.e. also bake_geometry, init_source_energy (including its default installs and its partial
+    effects when it raises), calculate_energy_exchange (with and without recalculate) and
+    collect_energy_receiver_mono(direct_sound=False) -- similar objects answer with the same exception
+    class and the same observation, and the successors are similar again.  No kind hypothesis is needed:
+    no stage reads the kind or the ownership of a direction list. *)
+Theorem C15_bisim (g : geo) (s s' : ostate) (o : op) :
+  direct_collect o = false -> sim s s' -> normr (ostep g s o) = normr (ostep g s' o).
+Proof. exact (bisim_step_full g s s' o). Qed.
+Print Assumptions C15_bisim.
+
+(** ... hence every continuation (of any length) without direct-sound collects yields equal classes and
+    observations on two similar objects, and similar final states. *)
+Theorem C15_bisim_trace (g : geo) (h : list op) (s s' : ostate) :
+  forallb (fun o => negb (direct_collect o)) h = true -> sim s s' ->
+  map (fun r => (oclass_of r, oobs_of r)) (otrace g s h) =
+  map (fun r => (oclass_of r, oobs_of r)) (otrace g s' h) /\
+  sim (orun g s h) (orun g s' h).
+Proof. exact (bisim_trace_full g h s s'). Qed.
+Print Assumptions C15_bisim_trace.
+
+(** The kind invariant: it holds for a freshly constructed object, every public call preserves it
+    (whatever class it answers with -- the partial effects of failed calls included), hence it holds in
+    every reachable state. *)
+Theorem C15_wf_reachable (g : geo) :
+  wf (init g) /\
+  (forall s o, wf s -> wf (ostate_of (ostep g s o))) /\
+  (forall s, reachable g s -> wf s).
+Proof. exact (conj (wf_init g) (conj (fun s o => step_wf g s o) (reachable_wf g))). Qed.
+Print Assumptions C15_wf_reachable.
+
+(** Round trip at EVERY reachable state (no kind hypothesis): accepted by check() <-> restored to a
+    similar object that compares equal in both directions; refused by check() -> from_dict / from_read
+    raise exactly that error. *)
+Theorem C15_roundtrip_reachable (g : geo) (viafile : bool) (s : ostate) :
+  reachable g s ->
+  (ocheck g s = ROk ->
+   exists s', restore g viafile s = (ROk, Some s') /\ sim s s' /\ oeq s s' = true /\ oeq s' s = true) /\
+  (ocheck g s <> ROk -> restore g viafile s = (ocheck g s, None)).
+Proof. exact (roundtrip_reachable g viafile s). Qed.
+Print Assumptions C15_roundtrip_reachable.
+
+(** HEADLINE.  Take any history [h0] of public calls on a fresh object and let [s] be the state it ends
+    in.  If check() accepts [s], then saving and restoring (dictionary or file) succeeds, the restored
+    [s'] is similar and equal to [s], and EVERY continuation [h] that contains no direct-sound collect
+    answers every call with the same exception class and the same observation on [s] and on [s'], passes
+    through similar states after every call, and ends in similar states.  (The direct-sound collect is
+    the known finding C15_roundtrip_refuted_source; states refused by check() are the known findings
+    C15_roundtrip_refuted_partial_materials / _stale_cache.) *)
+Theorem C15_lossless_continuation (g : geo) (h0 : list op) (viafile : bool) :
+  let s := orun g (init g) h0 in
+  ocheck g s = ROk ->
+  exists s',
+    restore g viafile s = (ROk, Some s') /\ sim s s' /\ oeq s s' = true /\ oeq s' s = true /\
+    forall h, forallb (fun o => negb (direct_collect o)) h = true ->
+      map (fun r => (oclass_of r, oobs_of r)) (otrace g s h) =
+      map (fun r => (oclass_of r, oobs_of r)) (otrace g s' h) /\
+      map normr (otrace g s h) = map normr (otrace g s' h) /\
+      sim (orun g s h) (orun g s' h).
+Proof. exact (lossless_continuation g h0 viafile). Qed.
+Print Assumptions C15_lossless_continuation.
+
+(** Non-vacuity: the five pipeline stages of Instances/ObjectExamples are reachable states accepted by
+    check(), so the headline theorem applies to each of them. *)
+Theorem C15_lossless_continuation_stages :
+  Forall (fun h0 => ocheck g0 (orun g0 (init g0) h0) = ROk)
+    [[]; mats0; mats0 ++ [OpBake]; mats0 ++ [OpBake; OpInitSource 1]; pipe0].
+Proof. exact stages_check_forall. Qed.
+Print Assumptions C15_lossless_continuation_stages.
